@@ -39,8 +39,11 @@ void GMGPolar::solve()
     residual_norms_.clear();
     exact_errors_.clear();
 
-    double initial_residual_norm;
-    double current_residual_norm, current_relative_residual_norm;
+    mean_residual_reduction_factor_ = 1.0;
+
+    double initial_residual_norm          = 0.0;
+    double current_residual_norm          = 0.0;
+    double current_relative_residual_norm = 1.0;
 
     while (number_of_iterations_ < max_iterations_) {
 
@@ -190,8 +193,11 @@ void GMGPolar::solve()
         /* -------------------------------- */
         /* Compute the reduction factor rho */
         /* -------------------------------- */
-        mean_residual_reduction_factor_ =
-            std::pow(current_residual_norm / initial_residual_norm, 1.0 / number_of_iterations_);
+        /* Residual norms are only computed when a tolerance is set. */
+        if (!residual_norms_.empty()) {
+            mean_residual_reduction_factor_ =
+                std::pow(current_residual_norm / initial_residual_norm, 1.0 / number_of_iterations_);
+        }
 
         if (verbose_ > 0) {
             std::cout << "\nTotal Iterations: " << number_of_iterations_ << std::endl;
